@@ -30,6 +30,9 @@ class HmacSha256Signer(Signer):
     def write_signature_info(self, signature_info):
         signature_info.signature_type = SignatureType.HMAC_WITH_SHA256
         signature_info.key_locator = KeyLocator()
+        if not isinstance(self.key_locator_name, (list, tuple, str, bytes, bytearray, memoryview)):
+            # A name given as a one-shot iterator is read once, not once per packet
+            self.key_locator_name = list(self.key_locator_name)
         signature_info.key_locator.name = self.key_locator_name
 
     def get_signature_value_size(self):
